@@ -53,6 +53,13 @@ Oracle, when `blocking_flush` returned true (otherwise the scenario is inconclus
    inside the outage may return false (correct); if it returns true, every event accepted before it -
    on every signal - is already in an acknowledged request.
 
+12. sequences of flushes on one thread (`run_flush_sequence`): emit A; 1-3 `blocking_flush(short)` that time out
+   because the collector holds (second round: merely delays) A's request; emit B - a later batch, a later
+   request, acknowledged hundreds of ms after A's; `blocking_flush(long)` on the same thread, optionally with
+   other threads flushing concurrently. Every flush that returned true, on whatever thread: each event whose
+   `emit` returned before the call is in a request whose acknowledgement the collector began to write before
+   the flush returned (`C12:flush-true-before-acknowledgement:...`). A flush that returns false is never judged.
+
 No verdict depends on a deadline: the waits are watchdogs that make the scenario inconclusive.
 */
 
@@ -1585,6 +1592,313 @@ fn run_outage_flush(r: &mut Report, seed: u64, case: u64, divisor: u32, request_
     drop(col);
 }
 
+// ---------------------------------------------------------------------------
+// sequences of flushes on ONE thread: a flush that timed out must not poison the next one
+// ---------------------------------------------------------------------------
+
+const FLUSH_SEQ_VID_BASE: u64 = 11_000_000_000;
+
+struct FlushRec {
+    /// 0 = the scenario's own thread, 1.. = the other flushers
+    thread: usize,
+    call: u64,
+    ret: u64,
+    ok: bool,
+    timeout_ms: u64,
+    label: &'static str,
+}
+
+/// On one thread: emit A; `blocking_flush(short)` - once, twice or three times - that TIMES OUT because the
+/// collector holds A's request; emit B (a later batch, a later request); the collector acknowledges A's
+/// request and keeps B's pending for hundreds of milliseconds; `blocking_flush(long)` on the same thread.
+/// Optionally a second round in which the request that makes the short flush time out is merely slow
+/// (acknowledged after a delay) instead of held. Variation: transport, gzip, signal subset (every event kind
+/// goes to every configured signal), number of timed-out flushes, whether the first short flush is made
+/// immediately after A was emitted (its watcher then rides A's batch) or once A's request has arrived at the
+/// collector (it rides the next batch), whether the long flush is already waiting when A's request is
+/// released or only starts once A's acknowledgement was written, and whether two other threads flush
+/// concurrently with timeouts of their own.
+///
+/// Oracle - for EVERY flush of the scenario, on whatever thread: if it returned true, every event whose
+/// `emit` had returned before the flush was called is in an acknowledged request whose acknowledgement the
+/// collector began to write BEFORE the flush returned (stamps on the common timeline; the slow request's
+/// acknowledgement is hundreds of milliseconds away, so a true that came early is causal, not noise). A
+/// flush that returns false is never a violation.
+fn run_flush_sequence(r: &mut Report, seed: u64, case: u64) {
+    r.eval();
+    let mut g = Rng::stream(seed, &[12, 6, case]);
+    let transport = Transport::ALL[(case % 3) as usize];
+    let n_timed_out = 1 + (case / 3 % 3) as usize;
+    let early_first = case / 9 % 2 == 0;
+    let final_waits_for_release = case / 18 % 2 == 0;
+    let others = case / 36 % 2 == 1;
+    let second_round = (case / 3 + seed) % 2 == 0;
+    let subset = ((case * 5 + case / 7 + seed) % 7 + 1) as u8;
+    let gzip = g.bool();
+    let tname = transport.name();
+    let configured: Vec<Signal> = Signal::ALL.into_iter().filter(|s| subset & s.bit() != 0).collect();
+    let delay_ms = 300 + g.below(150) as u32;
+    let short_ms = 60 + g.below(90);
+    let case_json = |detail: Json| {
+        json!({"seed": seed, "case": case, "kind": "flush-sequence", "transport": tname, "gzip": gzip, "subset": subset_name(subset),
+            "timed_out_flushes_before_the_long_one": n_timed_out, "first_short_flush": if early_first { "immediately-after-emit" } else { "after-the-request-arrived" },
+            "long_flush": if final_waits_for_release { "already-waiting-when-the-held-request-is-released" } else { "starts-after-the-held-request-was-acknowledged" },
+            "other_threads_flushing": others, "second_round_with_a_slow_request": second_round, "slow_acknowledgement_ms": delay_ms, "short_timeout_ms": short_ms, "detail": detail})
+    };
+
+    // request 0 is held until released, the next three are acknowledged after `delay_ms`
+    let cfgs = configured
+        .iter()
+        .map(|s| EndpointCfg {
+            signal: *s,
+            wire: transport.wire(),
+            listen: true,
+            script: vec![Decision::HoldAck(30_000), Decision::DelayAck(delay_ms), Decision::DelayAck(delay_ms), Decision::DelayAck(delay_ms)],
+        })
+        .collect();
+    let col = Collector::start(cfgs);
+    let otlp = build_otlp(&col, transport, gzip, subset);
+    let pad = "x".repeat(64);
+
+    let emitted: Mutex<Vec<(u64, Signal, u64)>> = Mutex::new(Vec::new());
+    let flushes: Mutex<Vec<FlushRec>> = Mutex::new(Vec::new());
+    let next_vid = std::cell::Cell::new(FLUSH_SEQ_VID_BASE + case * 1_000);
+    let emit_round = |n: u64| -> Vec<u64> {
+        let mut vids = Vec::new();
+        for s in &configured {
+            for _ in 0..n {
+                let vid = next_vid.get();
+                next_vid.set(vid + 1);
+                emit_ev(&otlp, &Ev { vid, kind: kind_for(*s), pad: 16 }, &pad);
+                emitted.lock().unwrap().push((vid, *s, stamp()));
+                vids.push(vid);
+            }
+        }
+        vids
+    };
+    let flush = |thread: usize, t: Duration, label: &'static str| -> bool {
+        let call = stamp();
+        let ok = otlp.blocking_flush(t);
+        let ret = stamp();
+        flushes.lock().unwrap().push(FlushRec { thread, call, ret, ok, timeout_ms: t.as_millis() as u64, label });
+        ok
+    };
+    // (a watchdog, never a verdict) every one of these events is in a request the collector has read / answered
+    let in_a_request = |vids: &[u64], answered: bool| {
+        col.wait_until(Duration::from_secs(15), |recs| {
+            let mut seen: BTreeSet<u64> = BTreeSet::new();
+            for rec in recs.iter().filter(|x| x.body_read.is_some() && (!answered || x.responded.is_some())) {
+                if let Ok(items) = rec.items() {
+                    seen.extend(items.iter().filter_map(|i| i.vid()));
+                }
+            }
+            vids.iter().all(|v| seen.contains(v))
+        })
+    };
+    let arrived = |vids: &[u64]| in_a_request(vids, false);
+    let answered = |vids: &[u64]| in_a_request(vids, true);
+
+    let stop = AtomicBool::new(false);
+    let long_started = AtomicBool::new(false);
+    let mut watchdog: Option<&'static str> = None;
+    let mut long_ok = false;
+
+    std::thread::scope(|scope| {
+        if others {
+            for k in 0..2usize {
+                let (stop, flush) = (&stop, &flush);
+                let mut g = Rng::stream(seed, &[12, 7, case, k as u64]);
+                scope.spawn(move || {
+                    while !stop.load(Ordering::SeqCst) {
+                        flush(1 + k, Duration::from_millis(g.range(30, 350)), "other-thread");
+                        std::thread::sleep(Duration::from_millis(g.range(1, 30)));
+                    }
+                });
+            }
+        }
+        // the releaser: lets A's request go once the long flush is really waiting
+        if final_waits_for_release {
+            let (long_started, stop, col) = (&long_started, &stop, &col);
+            scope.spawn(move || {
+                while !long_started.load(Ordering::SeqCst) && !stop.load(Ordering::SeqCst) {
+                    std::thread::sleep(Duration::from_millis(2));
+                }
+                std::thread::sleep(Duration::from_millis(120));
+                col.release_gate();
+            });
+        }
+
+        // ---- round 1: the request that makes the short flushes time out is HELD ----
+        let a = emit_round(1 + g.below(2));
+        if !early_first && !arrived(&a) {
+            watchdog = Some("the first requests did not arrive within 15 s");
+        }
+        for i in 0..n_timed_out {
+            if watchdog.is_some() {
+                break;
+            }
+            flush(0, Duration::from_millis(short_ms), "short-while-the-request-is-held");
+            if i + 1 < n_timed_out && g.bool() {
+                emit_round(1);
+            }
+        }
+        if watchdog.is_none() && early_first && !arrived(&a) {
+            watchdog = Some("the first requests did not arrive within 15 s");
+        }
+        if watchdog.is_none() {
+            // B: the worker is busy with A's batch, so this is a later batch and a later request
+            emit_round(1 + g.below(2));
+            if final_waits_for_release {
+                long_started.store(true, Ordering::SeqCst);
+            } else {
+                col.release_gate();
+                if !answered(&a) {
+                    watchdog = Some("the held requests were not answered within 15 s of their release");
+                }
+            }
+        }
+        if watchdog.is_none() {
+            long_ok = flush(0, Duration::from_secs(30), "long-after-timed-out-flushes");
+        }
+        // ---- round 2: the request that makes the short flush time out is merely SLOW ----
+        if watchdog.is_none() && long_ok && second_round {
+            let c = emit_round(1);
+            // immediately: the watcher rides the batch of these events, whose request is acknowledged late
+            flush(0, Duration::from_millis(short_ms), "short-while-the-request-is-slow");
+            if !arrived(&c) {
+                watchdog = Some("the slow requests did not arrive within 15 s");
+            } else {
+                emit_round(1);
+                long_ok = flush(0, Duration::from_secs(30), "long-after-timed-out-flushes");
+            }
+        }
+        stop.store(true, Ordering::SeqCst);
+        long_started.store(true, Ordering::SeqCst);
+        col.release_gate();
+    });
+
+    col.settle();
+    let records = col.records();
+    let emitted = emitted.into_inner().unwrap();
+    let flushes = flushes.into_inner().unwrap();
+    r.observe("flush-seq:requests-recorded", records.len() as u64);
+    r.observe("flush-seq:events-emitted", emitted.len() as u64);
+    r.observe("flush-seq:flush-calls", flushes.len() as u64);
+
+    // ---- decode; requests from somebody else make the scenario a harness matter ----
+    let known: BTreeSet<u64> = emitted.iter().map(|e| e.0).collect();
+    let mut first_ack: HashMap<u64, u64> = HashMap::new();
+    let mut foreign = false;
+    for rec in &records {
+        if rec.body.is_none() || (rec.peer_gone && rec.note.is_some()) {
+            continue;
+        }
+        let Ok(items) = rec.items() else { continue };
+        for v in items.iter().filter_map(|i| i.vid()) {
+            if !known.contains(&v) {
+                foreign = true;
+            }
+            if rec.acked() {
+                if let Some(t) = rec.responding {
+                    let e = first_ack.entry(v).or_insert(u64::MAX);
+                    *e = (*e).min(t);
+                }
+            }
+        }
+    }
+    if foreign {
+        r.observe("flush-seq:scenarios-inconclusive", 1);
+        r.inconclusive("flush-sequence scenario: a collector received requests that were not sent by its scenario's emitter; not judged");
+        return;
+    }
+
+    // ---- did the scenario take the intended shape? (evidence only; the oracle below holds regardless) ----
+    let main: Vec<&FlushRec> = flushes.iter().filter(|f| f.thread == 0).collect();
+    let shorts_false = main.iter().filter(|f| f.label.starts_with("short") && !f.ok).count();
+    r.observe("flush-seq:short-flushes-that-timed-out(correct)", shorts_false as u64);
+    r.observe("flush-seq:short-flushes-that-returned-true", main.iter().filter(|f| f.label.starts_with("short") && f.ok).count() as u64);
+    if let Some(last_short) = main.iter().filter(|f| f.label == "short-while-the-request-is-held").last() {
+        let held_through = configured.iter().all(|s| records.iter().find(|x| x.endpoint == *s && x.seq == 0).and_then(|x| x.responding).map(|t| t > last_short.ret).unwrap_or(false));
+        if held_through {
+            r.observe("flush-seq:first-request-was-held-through-every-short-flush", 1);
+        }
+    }
+    let later_request_slow = configured.iter().all(|s| records.iter().any(|x| x.endpoint == *s && x.seq == 1 && x.acked()));
+    if later_request_slow {
+        r.observe("flush-seq:later-batch-went-out-in-a-later-slowly-acknowledged-request", 1);
+    }
+
+    // ---- the oracle: true => everything emitted before the call was acknowledged before the return ----
+    let mut judged_true = 0u64;
+    for (k, f) in flushes.iter().enumerate() {
+        if !f.ok {
+            continue;
+        }
+        judged_true += 1;
+        let earlier_on_thread: Vec<&FlushRec> = flushes[..k].iter().filter(|e| e.thread == f.thread).collect();
+        let after_timed_out = earlier_on_thread.iter().filter(|e| !e.ok).count();
+        let missing: Vec<(u64, Signal, bool)> = emitted
+            .iter()
+            .filter(|(_, _, at)| *at < f.call)
+            .filter_map(|(v, s, _)| match first_ack.get(v) {
+                Some(t) if *t < f.ret => None,
+                Some(_) => Some((*v, *s, true)),
+                None => Some((*v, *s, false)),
+            })
+            .collect();
+        if f.thread == 0 && after_timed_out > 0 && f.label.starts_with("long") {
+            r.observe("flush-seq:long-flushes-judged-after-timed-out-flushes-on-the-same-thread", 1);
+            r.nontrivial(&("flush-seq", tname, subset, n_timed_out, early_first, final_waits_for_release, others, f.label, after_timed_out));
+        }
+        if missing.is_empty() {
+            continue;
+        }
+        let history = if after_timed_out > 0 { "after-a-timed-out-flush-on-the-same-thread" } else { "no-earlier-timed-out-flush-on-its-thread" };
+        let later = missing.iter().filter(|m| m.2).count();
+        r.violation(
+            &format!("C12:flush-true-before-acknowledgement:{}:{}", history, tname),
+            &format!(
+                "blocking_flush({} ms) on {} returned true (stamps {}..{}) after {} earlier flush(es) on that thread had timed out, although {} of the events emitted before it were in no acknowledged request yet ({} of them were acknowledged only later, {} never); signals {:?}",
+                f.timeout_ms,
+                if f.thread == 0 { "the emitting thread".to_string() } else { format!("flusher thread #{}", f.thread) },
+                f.call,
+                f.ret,
+                after_timed_out,
+                missing.len(),
+                later,
+                missing.len() - later,
+                missing.iter().map(|m| m.1.name()).collect::<BTreeSet<_>>()
+            ),
+            case_json(json!({
+                "flush": {"thread": f.thread, "call": f.call, "return": f.ret, "timeout_ms": f.timeout_ms, "label": f.label},
+                "earlier_flushes_on_that_thread": earlier_on_thread.iter().map(|e| json!({"call": e.call, "return": e.ret, "ok": e.ok, "timeout_ms": e.timeout_ms})).collect::<Vec<_>>(),
+                "unacknowledged_at_return": missing.iter().take(8).map(|(v, s, l)| json!({"vid": v, "signal": s.name(), "acknowledgement_written_at": if *l { json!(first_ack[v]) } else { json!(null) }})).collect::<Vec<_>>(),
+                "requests": records.iter().map(|rec| rec.brief()).collect::<Vec<_>>(),
+            })),
+        );
+        break;
+    }
+    r.observe("flush-seq:flushes-returning-true-judged", judged_true);
+    if let Some(w) = watchdog {
+        r.observe("flush-seq:scenarios-inconclusive", 1);
+        r.inconclusive(format!("flush-sequence scenario: watchdog: {}", w));
+    } else if !long_ok {
+        r.observe("flush-seq:scenarios-inconclusive", 1);
+        r.observe("flush-seq:long-flush-returned-false", 1);
+        r.inconclusive("flush-sequence scenario: the long blocking_flush (30 s) returned false");
+    } else {
+        r.observe("flush-seq:scenarios-decided", 1);
+    }
+    if r.wants_sample() && case < 3 {
+        let fl: Vec<Json> = flushes.iter().map(|f| json!({"thread": f.thread, "label": f.label, "timeout_ms": f.timeout_ms, "call": f.call, "return": f.ret, "ok": f.ok})).collect();
+        let reqs: Vec<Json> = records.iter().map(|rec| json!({"endpoint": rec.endpoint.name(), "seq": rec.seq, "decision": rec.decision.name(), "received": rec.received, "acknowledgement_written": rec.responding})).collect();
+        let cj = case_json(json!(null));
+        r.sample(move || json!({"scenario": cj, "flushes": fl, "requests": reqs}));
+    }
+    drop(otlp);
+    drop(col);
+}
+
 /// Run-level judgement of "2xx head, then a graceful close" (see `run`): sent again after every single one.
 fn judge_ack_then_close(r: &mut Report, min_hits: u64) {
     for t in [Transport::HttpJson, Transport::HttpProto] {
@@ -1651,6 +1965,14 @@ fn main() {
             }
             std::process::exit(r.finish());
         }
+        if case.get("kind").and_then(|v| v.as_str()) == Some("flush-sequence") {
+            emit_otlp::verif::set_request_timeout(Some(Duration::from_millis(if slow { 20_000 } else { 6_000 })));
+            for i in 0..3 {
+                run_flush_sequence(&mut r, s, c);
+                r.nontrivial(&("replay-run", i));
+            }
+            std::process::exit(r.finish());
+        }
         if case.get("kind").and_then(|v| v.as_str()) == Some("retry-budget") {
             for i in 0..3 {
                 run_budget(&mut r, s, c, args.thorough());
@@ -1692,6 +2014,16 @@ fn main() {
     // round of 18; outage mode and transport rotate with the case and the seed)
     let n_outage = if only("outage") { args.n(18, 324) } else { 0 };
     spread(&mut r, &args, n_outage, |i, r| run_outage_flush(r, seed, i, divisor, timeout_ms));
+    // sequences of flushes on one thread: timed-out flushes, then a long one (3 transports x 1..3 timed-out flushes x
+    // where the first short flush's watcher rides x long flush waiting / starting late x other threads flushing = 72).
+    // The held / slow requests must outlive the short flushes, not the emitter's request timeout: it is raised for
+    // this family (nothing else runs meanwhile) and restored afterwards.
+    let n_flush_seq = if only("flush-seq") { args.n(72, 720) } else { 0 };
+    emit_otlp::verif::set_request_timeout(Some(Duration::from_millis(if slow { 20_000 } else { 6_000 })));
+    let t_flush_seq = r.elapsed_s();
+    spread(&mut r, &args, n_flush_seq, |i, r| run_flush_sequence(r, seed, i));
+    emit_otlp::verif::set_request_timeout(Some(Duration::from_millis(timeout_ms)));
+    r.set("flush_sequence_section_wall_s", json!(r.elapsed_s() - t_flush_seq));
     let inconclusive = r.observed.get("scenarios-inconclusive").copied().unwrap_or(0);
     if inconclusive * 5 > n {
         r.inconclusive(format!("{} of {} scenarios were inconclusive (flush false / watchdog): too many to call the run meaningful", inconclusive, n));
